@@ -47,6 +47,8 @@ pub struct Features {
     /// Focus profile: one vehicle type with few vehicles, every vehicle with two shifts, many multi-task jobs
     /// (rare states: both shifts of one vehicle in use, jobs competing for them).
     pub shift_focus: bool,
+    /// Vicinity clustering (`plan.clustering`): jobs close to each other are served from one stop (parking + commute).
+    pub clustering: bool,
 }
 
 impl Features {
@@ -59,7 +61,7 @@ impl Features {
             multi_job, multi_dim, multi_tw, multi_place, tags, skills, groups, compat, order, value, limits, tour_size,
             multi_shift, open_end, latest_departure, unreachable, multi_profile, scale, reloads, shared_reload,
             opt_breaks, req_breaks, relations, nonmetric, asymmetric, objectives, same_location, tight, many_vehicles,
-            replacement, service, pickups, unreachable_random, reload_focus, shift_focus
+            replacement, service, pickups, unreachable_random, reload_focus, shift_focus, clustering
         );
         v
     }
@@ -77,7 +79,8 @@ impl Features {
             compat: 0.6, order: 0.7, value: 0.7, limits: 0.8, tour_size: 0.6, multi_shift: 0.8, open_end: 1.0,
             latest_departure: 1.0, unreachable: 0.5, multi_profile: 0.7, scale: 0.6, reloads: 0.7, shared_reload: 0.5,
             opt_breaks: 0.7, req_breaks: 0.5, relations: 0.7, nonmetric: 0.25, asymmetric: 0.8, objectives: 1.2,
-            same_location: 1.0, tight: 0.8, many_vehicles: 0.6, replacement: 0.5, service: 0.6, pickups: 1.2
+            same_location: 1.0, tight: 0.8, many_vehicles: 0.6, replacement: 0.5, service: 0.6, pickups: 1.2,
+            clustering: 0.5
         );
         f.shared_reload = f.shared_reload && f.reloads;
         f.unreachable_random = f.unreachable && p.chance(0.35);
@@ -116,6 +119,7 @@ impl Features {
             unreachable_random: true,
             reload_focus: false,
             shift_focus: false,
+            clustering: false,
         }
     }
 }
@@ -591,6 +595,47 @@ pub fn generate(seed: u64, limits: &GenLimits, allowed: &Features) -> GenProblem
             objs.insert(1.min(objs.len()), json!({ "type": "compact-tour", "job_radius": cx.p.range(1, 4) }));
         }
         problem["objectives"] = Value::Array(objs);
+    }
+
+    // ---- vicinity clustering
+    if f.clustering {
+        let mut c = Map::new();
+        c.insert("type".into(), json!("vicinity"));
+        let mut prof = Map::new();
+        prof.insert("matrix".into(), json!(cx.p.pick(&profile_names).clone()));
+        if f.scale && cx.p.chance(0.3) {
+            prof.insert("scale".into(), json!(*cx.p.pick(&[1.0, 2.0, 0.5])));
+        }
+        c.insert("profile".into(), Value::Object(prof));
+        let mut th = Map::new();
+        th.insert("duration".into(), json!(*cx.p.pick(&[60.0, 200.0, 600.0, 2000.0])));
+        th.insert("distance".into(), json!(*cx.p.pick(&[50.0, 200.0, 500.0, 2000.0])));
+        if cx.p.chance(0.3) {
+            th.insert("minSharedTime".into(), json!(*cx.p.pick(&[0.0, 60.0, 600.0])));
+        }
+        if cx.p.chance(0.3) {
+            th.insert("smallestTimeWindow".into(), json!(*cx.p.pick(&[0.0, 120.0, 900.0])));
+        }
+        if cx.p.chance(0.5) {
+            th.insert("maxJobsPerCluster".into(), json!(cx.p.range(2, 5)));
+        }
+        c.insert("threshold".into(), Value::Object(th));
+        c.insert("visiting".into(), json!(*cx.p.pick(&["return", "continue"])));
+        let parking = *cx.p.pick(&[0.0, 60.0, 300.0]);
+        c.insert(
+            "serving".into(),
+            match cx.p.below(3) {
+                0 => json!({ "type": "original", "parking": parking }),
+                1 => json!({ "type": "multiplier", "value": *cx.p.pick(&[0.5, 1.0, 0.1]), "parking": parking }),
+                _ => json!({ "type": "fixed", "value": *cx.p.pick(&[0.0, 30.0, 200.0]), "parking": parking }),
+            },
+        );
+        if cx.p.chance(0.3) {
+            let n_jobs = problem["plan"]["jobs"].as_array().map_or(0, |j| j.len());
+            let ids: Vec<String> = (0..n_jobs).filter(|_| cx.p.chance(0.3)).map(|j| format!("j{j}")).collect();
+            c.insert("filtering".into(), json!({ "excludeJobIds": ids }));
+        }
+        problem["plan"]["clustering"] = Value::Object(c);
     }
 
     // ---- matrices
